@@ -54,6 +54,9 @@ package redisemu
 // C19: the file a database is written to is named after the index it is registered under (not its position in the collected list)
 //@ loop 1 invariant [C19] paired: allsel(k, 0, len(all), haskey(dss.dbs, indexes[k]) && dss.dbs[indexes[k]] == all[k])
 //@ loop 2 invariant [C19] paired: allsel(k, 0, len(all), haskey(dss.dbs, indexes[k]) && dss.dbs[indexes[k]] == all[k])
+// lock order: EXEC owns a database and the commands it replays take the table lock; the saver must therefore not
+// wait for a database while it holds the table lock (deadlock: termination would never finish)
+//@ assertbefore "err := dsc.save(" [C20,C08,C13] table.lock.released: !mutexheld(dss.mu)
 //@ assertafter "err := dsc.save(" [C19] own.file: haskey(dss.dbs, gNameIndex) && dss.dbs[gNameIndex] == ds
 
 //@ func dataStoreSet.dbSize
